@@ -222,6 +222,10 @@ fn judge_real(ctx: &mut Ctx, c: &CaseIn, parts: &[Vec<usize>], out: &Out, specs:
         Out::Ok(v) => v,
         Out::Err(e) => {
             let absent = e.contains("Overlapping ranges") && range_absent_column_signature(c.nodes, c.docs, parts);
+            if (e.contains("limit") || e.contains("error")) && date_hist_below_mdc0_terms(c.nodes, false) && parts.iter().filter(|p| !p.is_empty()).count() > 1 {
+                ctx.report.violation("oracle", "C14:date-flag-lost-when-histogram-merged-into-empty-from-req", format!("{how}: a valid request failed: {e} — gap filling of a date histogram whose date flag was lost runs with the millisecond interval over nanosecond keys"), case_json(c, parts, "final"));
+                return None;
+            }
             ctx.report.violation("oracle", if absent { "C14:metric-missing-cast-to-u64-in-segment-without-column" } else { "C14:valid-request-rejected" },
                 format!("{how}: a valid request failed: {e}{}", if absent { " — negative range bounds collapse to 0 on the u64-typed substitute of an absent column" } else { "" }), case_json(c, parts, "final"));
             return None;
@@ -240,6 +244,10 @@ fn judge_real(ctx: &mut Ctx, c: &CaseIn, parts: &[Vec<usize>], out: &Out, specs:
     let crs = match canon_opt(c.nodes, v, no_segments) {
         Ok(x) => x,
         Err(e) => {
+            if e.contains("date histogram key") && date_hist_below_mdc0_terms(c.nodes, false) {
+                ctx.report.violation("oracle", "C14:date-flag-lost-when-histogram-merged-into-empty-from-req", format!("{how}: {e} — a `histogram` on a date field below terms(min_doc_count: 0): the zero-count term of one segment carries `empty_from_req(Histogram)` with is_date_agg = false, merge_fruits keeps the left flag, so the merged buckets are finalised as plain numbers (keys in nanoseconds, no key_as_string, interval not scaled)"), case_json(c, parts, "final"));
+                return None;
+            }
             let key = if range_absent_column_signature(c.nodes, c.docs, parts) { "C14:metric-missing-cast-to-u64-in-segment-without-column" } else { "C14:malformed-result" };
             ctx.report.violation("oracle", key, format!("{how}: {e}{}", if key != "C14:malformed-result" { " — a range with a negative / fractional bound over a segment without any value of the field (the absent column is typed u64 and the bound is converted as u64)" } else { "" }), case_json(c, parts, "final"));
             return None;
@@ -367,6 +375,11 @@ fn tophits_flush_signature(nodes: &[Node], whr: &str, matching: usize) -> bool {
 /// the request has a composite aggregation below a terms aggregation with `min_doc_count: 0`
 fn composite_below_mdc0_terms(nodes: &[Node], below: bool) -> bool {
     nodes.iter().any(|n| (below && matches!(n.agg, Agg::Composite { .. })) || composite_below_mdc0_terms(&n.subs, below || matches!(n.agg, Agg::Terms { mdc: Some(0), .. })))
+}
+
+/// the request has a plain `histogram` on the date field below a terms aggregation with `min_doc_count: 0`
+fn date_hist_below_mdc0_terms(nodes: &[Node], below: bool) -> bool {
+    nodes.iter().any(|n| (below && matches!(n.agg, Agg::Hist { field: Fd::D, date_hist: false, .. })) || date_hist_below_mdc0_terms(&n.subs, below || matches!(n.agg, Agg::Terms { mdc: Some(0), .. })))
 }
 
 /// the request has a composite aggregation below another bucket aggregation
